@@ -156,7 +156,145 @@ def c17(ctx, finish):
     return finish(ctx, {"exhaustive": True})
 
 
-PROPS = {"C16": c16, "C17": c17}
+# ------------------------------------------------------------------------------------------ C19
+
+TWO = os.path.join(ROOT, "harness", "target", "release", "twostores")
+
+
+def _strip(x, pre):
+    return x[len(pre):] if isinstance(x, str) and x.startswith(pre) else x
+
+
+def project(trace_path, key, out_path):
+    """the events of store `key` ("A"/"B") of a two-store log, renamed as if it were the only store"""
+    pre = key + "."
+    n = 0
+    with open(out_path, "w") as out:
+        for line in open(trace_path):
+            e = json.loads(line)
+            if e["ev"] == "reset":
+                prog = {c: [{k: v for k, v in o.items() if k != "st"} for o in ops if o.get("st") == key]
+                        for c, ops in e["d"]["prog"].items()}
+                e["d"] = {"id": e["d"]["id"], "prog": prog, "mode": "free"}
+                e.pop("st", None)
+                out.write(json.dumps(e) + "\n")
+                continue
+            if e["ev"] in ("start", "prog.end"):
+                continue
+            if e.get("st") != pre:
+                continue
+            e.pop("st", None)
+            e["t"] = _strip(e["t"], pre)
+            if isinstance(e["d"], dict):
+                if "ch" in e["d"]:
+                    e["d"]["ch"] = _strip(e["d"]["ch"], pre)
+                if "who" in e["d"]:
+                    e["d"]["who"] = _strip(e["d"]["who"], pre)
+            out.write(json.dumps(e) + "\n")
+            n += 1
+    return n
+
+
+def two_store_programs(tier):
+    from instances import D, O, S
+    def on(st, ops):
+        return [dict(o, st=st) for o in ops]
+    P = []
+    # producers on both stores, A is stopped while B is busy, B goes on
+    P.append({"c1": on("A", [D(1), D(2, "trait")]) + on("B", [D(3)]),
+              "c2": on("B", [D(1, "trait"), D(2)]) + on("A", [D(3)]),
+              "c3": on("A", [O("stop"), O("get_state"), O("metrics")]) + on("B", [D(4), O("stop"), O("get_state"), O("metrics")])})
+    # one subscriber object registered in both stores; the droppable handle of A is dropped while B works
+    sh = dict(S("add_sub", "x1"), via="shared")
+    P.append({"c1": on("A", [sh, D(1), D(2)]) + on("B", [sh, D(1)]) + on("A", [O("drop_store"), O("get_state")]),
+              "c2": on("B", [D(2, "trait"), D(3)]),
+              "c3": on("B", [S("subscribed", "s2")]) + on("A", [S("subscribed", "s2"), D(3, "trait")]) + on("B", [D(4), O("stop"), O("get_state"), O("metrics")])})
+    return P
+
+
+def c19(ctx, finish):
+    import checkmain
+    import instances
+    import pipeline
+    import tracecheck
+    q = ctx.tier == "quick"
+    # (1) the composition of two copies of the specification
+    d = tlc.workdir("c19")
+    try:
+        from instances import D, O
+        inst = families._i("two", [{"c1": [D(1, "impl"), O("stop")], "c2": [D(2, "trait")]}], {1: 0, 2: 1}, cap=1)
+        with open(os.path.join(d, "MC_two.tla"), "w") as f:
+            f.write(instances.mc_module(inst, "MC_two", extends="TwoStores"))
+        body = "SPECIFICATION Spec2\nCHECK_DEADLOCK FALSE\nINVARIANT InvA\nINVARIANT InvB\nPROPERTY RefinesA\nPROPERTY RefinesB\n"
+        r = tlc.run(d, "MC_two", instances.mc_cfg(inst, body), workers=12, timeout=900)
+        ctx.states += r.distinct
+        ctx.transitions += r.generated
+        ctx.mc.append({"instance": "TwoStores(two)", "distinct": r.distinct, "generated": r.generated,
+                       "properties": ["RefinesA", "RefinesB", "InvA", "InvB"], "result": "ok" if r.ok else str(r.violation)})
+        if not r.ok:
+            ctx.errors.append("TLC on TwoStores: %s\n%s" % (r.violation, r.out[-1200:]))
+            return finish(ctx)
+        # (2) two real stores in one process; every store's half of the log must be a behaviour of RsStore
+        acts = {1: 0, 2: 1, 3: 0, 4: 1}
+        subs = {"x1": {"kind": "direct"}, "s2": {"kind": "chan", "cap": 1, "pol": "block"}}
+        variants = [("block", 2, "block", 2), ("oldest", 1, "block", 2)] if q else \
+                   [("block", 2, "block", 2), ("oldest", 1, "block", 2), ("latest", 1, "oldest", 1), ("block", 1, "latest", 2)]
+        progs = two_store_programs(ctx.tier)
+        reps = 60 if q else 400
+        for vi, (pa, ca, pb, cb) in enumerate(variants):
+            mk = lambda name, pol, cap: families._i(name, [{"c1": [], "c2": [], "c3": []}], acts, cap=cap, pol=pol, subs=subs,
+                                                    red_script={"r1": {0: instances.red("D"), 1: instances.red("D", instances.eff("task"))}},
+                                                    max_tasks=4, cb_reads=False)
+            ia, ib = mk("twoA%d" % vi, pa, ca), mk("twoB%d" % vi, pb, cb)
+            doc = {"configs": {"A": instances.harness_config(ia), "B": instances.harness_config(ib)},
+                   "runs": [{"id": i, "prog": progs[i % len(progs)]} for i in range(reps)]}
+            path = os.path.join(d, "two%d.json" % vi)
+            json.dump(doc, open(path, "w"))
+            tr = os.path.join(d, "two%d.trace.ndjson" % vi)
+            out = subprocess.run([TWO, path, "--trace", tr, "--seed", str(ctx.seed)], stdout=subprocess.PIPE,
+                                 stderr=subprocess.PIPE, text=True, timeout=1200)
+            res = [json.loads(l) for l in out.stdout.splitlines() if l.startswith("{")]
+            hung = [x for x in res if x["outcome"] != "finished"]
+            if hung or out.returncode != 0:
+                art = checkmain.save_artifact(ctx, "two_hang_%d" % vi, {"kind": "two-store run hung", "configs": doc["configs"],
+                                                                        "runs": [doc["runs"][hung[0]["index"]]] if hung else []})
+                ctx.violations.append(("a run with two stores did not finish", art))
+                break
+            for key, ix in (("A", ia), ("B", ib)):
+                proj = os.path.join(d, "two%d.%s.ndjson" % (vi, key))
+                project(tr, key, proj)
+                v = tracecheck.validate(ix, proj, tlc.workdir("c19v"), clients=["c1", "c2", "c3"],
+                                        timeout=600 if q else 3000)
+                ctx.frees.append({"instance": ix["name"], "store": key, "runs": len(res), "accepted": v.get("accepted"),
+                                  "validator_states": v.get("states")})
+                if v.get("error"):
+                    ctx.errors.append("validation of store %s failed: %s" % (key, v.get("out", "")[-800:]))
+                elif v.get("accepted"):
+                    ctx.traces += len(res)
+                else:
+                    art = checkmain.save_artifact(ctx, "two_%d_%s" % (vi, key),
+                                                  {"kind": "two-store run: the events of one store are not a behaviour of a store",
+                                                   "store": key, "event": v.get("event"), "configs": doc["configs"],
+                                                   "runs": [doc["runs"][v["run"]]] if isinstance(v.get("run"), int) else []})
+                    ctx.violations.append(("in a process with two stores, the events of store %s cannot be explained by the "
+                                           "specification of one store alone, at %s" % (key, json.dumps(v.get("event"))[:250]), art))
+                    break
+            if ctx.violations:
+                break
+            for r_ in doc["runs"][:2]:
+                ctx.distinct.add(json.dumps(r_["prog"], sort_keys=True) + str(vi))
+            if len(ctx.samples) < 2:
+                ctx.samples.append({"kind": "two-store program run on OS threads, each store's events validated separately",
+                                    "policies": [pa, pb], "prog": progs[0]})
+    finally:
+        shutil.rmtree(d, ignore_errors=True)
+        for x in os.listdir(tlc.WORK):
+            if x.startswith("c19v"):
+                shutil.rmtree(os.path.join(tlc.WORK, x), ignore_errors=True)
+    return finish(ctx)
+
+
+PROPS = {"C16": c16, "C17": c17, "C19": c19}
 
 
 def run(ctx, finish):
